@@ -3,6 +3,7 @@ package harness
 import (
 	"bytes"
 	"encoding/binary"
+	"encoding/json"
 	"fmt"
 	"math/rand"
 	"os"
@@ -80,6 +81,8 @@ type rawCfg struct {
 }
 
 type rawScn struct {
+	force string        // target (routed) / origin (BUS forwarding) named by the step, instead of a random live pipe
+	el    time.Duration // virtual time elapsed (absolute "advto" steps of TLC-generated scenarios)
 	s     *sim.S
 	cfg   rawCfg
 	sock  mangos.Socket
@@ -167,6 +170,9 @@ func (c *rawScn) mkSend(kind string) (hdr, body []byte, ok bool, to, skip string
 	case "xbus":
 		if kind == "fwd" && len(live) > 0 {
 			pick := live[c.rng.Intn(len(live))]
+			if c.force != "" {
+				pick = c.force
+			}
 			sid, _ := c.ids.ID(pick)
 			hdr = binary.BigEndian.AppendUint32(nil, sid)
 			if !c.cfg.P.cooked {
@@ -186,6 +192,9 @@ func (c *rawScn) mkSend(kind string) (hdr, body []byte, ok bool, to, skip string
 			hdr = binary.BigEndian.AppendUint32(hdr, 0x80000005)
 		default:
 			to = live[c.rng.Intn(len(live))]
+			if c.force != "" {
+				to = c.force
+			}
 			if kind == "gone" {
 				// a pipe that has been seen but is closed
 				for n, p := range c.pipes {
@@ -295,7 +304,9 @@ func (c *rawScn) step(st string) {
 		}
 		close(gate)
 	case "send":
+		c.force = arg(2) // "send ok p2" / "send fwd p1": the pipe the step names
 		hdr, body, ok, to, skip, h := c.mkSend(arg(1))
+		c.force = ""
 		sock := c.sock
 		s.Call(s.Thread(), "send", "s", []interface{}{"tag", rawTag(body), "ok", ok, "to", to, "skip", skip, "h", h}, func() []interface{} {
 			m := appNew(s, len(body))
@@ -342,7 +353,16 @@ func (c *rawScn) step(st string) {
 	case "adv":
 		d, _ := time.ParseDuration(arg(1))
 		s.Adv(d)
+		c.el += d
 		return
+	case "advto":
+		var sec int
+		fmt.Sscanf(arg(1), "%d", &sec)
+		if d := time.Duration(sec)*time.Second - c.el; d > 0 {
+			s.Adv(d)
+			c.el += d
+			return
+		}
 	case "sclose":
 		sock := c.sock
 		s.Call(s.Thread(), "sclose", "s", nil, func() []interface{} { return []interface{}{"r", sock.Close()} })
@@ -571,6 +591,50 @@ func rawDeadline(p rawProto) []rawCfg {
 	return out
 }
 
+func rawFromTLC(path string, p rawProto, rng *rand.Rand, n int) []rawCfg {
+	sec := time.Second
+	mixes := map[string]rawCfg{
+		"a": {P: p, TTL: 8, SQ: 1, RQ: 1},
+		"b": {P: p, TTL: 8, SQ: 1, RQ: 1, SendExp: 2 * sec, RecvExp: 3 * sec, FailNoPeers: true},
+		"z": {P: p, TTL: 8, SQ: 0, RQ: 0},
+	}
+	data, err := os.ReadFile(path)
+	if err != nil {
+		panic(err)
+	}
+	var all []rawCfg
+	for _, ln := range strings.Split(string(data), "\n") {
+		if strings.TrimSpace(ln) == "" {
+			continue
+		}
+		var x struct {
+			Opt   string   `json:"opt"`
+			Steps []string `json:"steps"`
+		}
+		if err := json.Unmarshal([]byte(ln), &x); err != nil {
+			panic(err)
+		}
+		k := strings.LastIndex(x.Opt, "_")
+		if k < 0 || x.Opt[:k] != p.eng {
+			continue
+		}
+		c, ok := mixes[x.Opt[k+1:]]
+		if !ok {
+			panic("unknown option mix " + x.Opt)
+		}
+		if p.eng == "xpush" && c.SQ == 0 {
+			c.SQ = 1 // WriteQLen 0 on PUSH is the recorded known finding (own scenario)
+		}
+		c.Steps = x.Steps
+		all = append(all, c)
+	}
+	rng.Shuffle(len(all), func(i, j int) { all[i], all[j] = all[j], all[i] })
+	if n < len(all) {
+		all = all[:n]
+	}
+	return all
+}
+
 func TestRaw(t *testing.T) {
 	only := os.Getenv("VERIF_RAW_PROTOS") // comma separated engine or protocol names
 	rng := rand.New(rand.NewSource(seed()))
@@ -579,6 +643,18 @@ func TestRaw(t *testing.T) {
 			continue
 		}
 		out := newOut(t, "raw_"+p.name)
+		if f := os.Getenv("VERIF_SCN_FILE"); f != "" {
+			// scenarios TLC generated from spec/mc/MC_RawScn.tla for this engine (the configuration name = engine_mix)
+			for i, cfg := range rawFromTLC(f, p, rng, count(400, 1000000)) {
+				if out.Stop() {
+					break
+				}
+				res, eff := runRaw(t, cfg, seed()*7919+int64(i))
+				out.Add(fmt.Sprintf("%sscn-%d", p.name, i), eff, fmt.Sprint(cfg.P.name, cfg.Steps, cfg.SQ, cfg.RQ), res)
+			}
+			out.Close()
+			continue
+		}
 		cfgs := rawScripted(p)
 		if os.Getenv("VERIF_MIX") == "deadline" {
 			cfgs = rawDeadline(p)
